@@ -58,9 +58,7 @@ Proof. exact move_order_perm. Qed.
 Theorem C08_ravel_unravel_inverse :
   forall s, (forall idx, in_range s idx -> unravel s (ravel s idx) = idx) /\
             (forall k, (k < nprod s)%nat -> ravel s (unravel s k) = k /\ in_range s (unravel s k)).
-Proof.
-  intros s. split; [apply unravel_ravel|]. intros k Hk. split; [now apply ravel_unravel| now apply unravel_in_range].
-Qed.
+Proof. exact ravel_unravel_inverse. Qed.
 
 (* THE n-d STATEMENT OF C08: offsetting the codes row by row and reducing the flattened, plumbed arrays gives, in the slot of
    (kept index ki, group g), exactly the members of group g within the slice of the ORIGINAL array at kept index ki (in C order
